@@ -191,6 +191,28 @@ CLAIMED["C18"] = (
     "priority classes are pins, no independent document available offline).",
     "DESIGN.md §5 C18")
 
+CLAIMED["C15"] = (
+    "model_checking",
+    "property-level TLA+ spec TxnAtomic (wire log = concatenation of whole caller units, prefixes adjacent, lock "
+    "free, sequences closed) evaluated by TLC on runs of the real drivers under a deterministic virtual-time event "
+    "loop with recording fake gateways; schedules = start points x report release plans (systematic for 2 callers, "
+    "seeded random for 2-4)",
+    "Real CPython asyncio scheduling runs unchanged inside each loop iteration; the harness controls only what a real "
+    "loop leaves to the OS: when gateway reports become readable and when callers start. Quick: ~2000 runs over 4 "
+    "drivers; thorough: every release plan of length 8 over {0,1,all} x 12 start points x 2 orders + 48000 random runs.",
+    "Trusted: TLC; the virtual loop (a 90-line BaseEventLoop subclass); fake gateways (their report streams are "
+    "FIFO and recorded).",
+    "DESIGN.md §5 C15")
+CLAIMED["C16"] = (
+    "model_checking",
+    "property-level TLA+ spec AnswerPairing (None iff no answer expected, else the command's own response type "
+    "wrapping the outcome the gateway assigned to that wire entry) evaluated by TLC on the same runs plus stale-answer "
+    "scenarios and the synchronous daliserver / ATX drivers",
+    "Outcomes {silent, values incl. 0/1/0xFE/0xFF, framing error} are assigned per wire entry by the fake gateway and "
+    "logged with the issuing task, so TLC can tell whose answer each caller received.",
+    "Trusted: as C15; fake buses answer only frames the specification's tables mark as queries.",
+    "DESIGN.md §5 C16")
+
 NOT_YET = {}
 
 
